@@ -25,7 +25,7 @@ def run(rec):
     items = []
     for netname, sd in structures(rec.tier, rec.seed):
         items += [(netname, sd, "gillespie"), (netname, sd, "tauleap")]
-    rec.parallel(_work, items)
+    rec.parallel(_work, items, item_budget_s=240 if rec.tier == "quick" else 900)
 
 
 def _work(rec, item):
